@@ -29,6 +29,15 @@ fn grammar_text(id: &str) -> Option<&'static str> {
     if let Some(rest) = id.strip_prefix("tail:") {
         return grammar_text_tail(rest);
     }
+    // third set: the two valid grammars differ only in their line endings (CR LF / LF); one line ending lies inside
+    // a literal, so they are different grammars with different parsers
+    if let Some(rest) = id.strip_prefix("crlf:") {
+        return match rest {
+            "g1" => Some("@export\r\nA = 'a\r\nb' [x:B];\r\nB = 'b';\r\n"),
+            "g2" => Some("@export\nA = 'a\nb' [x:B];\nB = 'b';\n"),
+            other => grammar_text(other),
+        };
+    }
     match id {
         "g1" => Some("@export\nA = 'a' [x:B];\nB = 'b';\n"),
         "g2" => Some("@export\nA = {x:B | y:C};\nB = 'b';\n@string\nC = 'c' char;\n"),
@@ -154,6 +163,10 @@ fn main() {
             Some(m) => (m, true),
             None => (mode, false),
         };
+        let (mode, crlf) = match mode.strip_suffix("+crlf") {
+            Some(m) => (m, true),
+            None => (mode, false),
+        };
         if mode == "dir2" {
             let dir = root.join(format!("d{}", n % 64));
             writeln!(out, "{}", replay_dir2(&dir, steps)).unwrap();
@@ -167,12 +180,21 @@ fn main() {
             "dest" => dir.join("out_grammar.rs"),
             _ => dir.join("src").join("grammar.rs"),
         };
-        let set = if mode == "dest" { "tail:" } else { "" };
+        let set = if crlf { "crlf:" } else if mode == "dest" { "tail:" } else { "" };
         let mut src = format!("{set}g1");
         if steps.starts_with("i:missing") {
             src = "missing".into();
         } else {
             std::fs::write(&src_path, grammar_text(&src).unwrap()).unwrap();
+        }
+        // what lies at the destination before the first run: nothing, an empty placeholder, or the beginning of
+        // the file that belongs there (a write interrupted in the middle of the header)
+        let init = steps.split(';').next().unwrap_or("");
+        if init.ends_with(":empty") {
+            std::fs::write(&dest_path, b"").unwrap();
+        } else if init.ends_with(":cut") {
+            let full = expected(&dir, &src, "", false).unwrap();
+            std::fs::write(&dest_path, &full[..40.min(full.len())]).unwrap();
         }
         let mut prefix = String::new();
         let mut dest_prefix = String::new(); // the prefix the destination was last written with
